@@ -260,7 +260,8 @@ def gen_equivariance(rng, count):
     for _ in range(count):
         n = rng.randint(3, 8)
         w = sorted({float(O.dy(rng, 900, 3900, 0)) for _ in range(n)})
-        if rng.random() < 0.25:
+        fine = rng.random() < 0.25
+        if fine:
             # finely sampled: neighbours 2^-4 .. 2^-10 Angstrom apart (still > 1e6 ulp apart in every unit)
             w0, dw = float(O.dy(rng, 900, 3900, 0)), 2.0 ** -rng.randint(4, 10)
             w = [w0 + i * dw for i in range(n)]
@@ -270,6 +271,8 @@ def gen_equivariance(rng, count):
         if entry == 'observation.sample_binned':
             w = sorted(rng.sample([1000., 1500., 2000., 2500., 3000.], rng.randint(2, 5)))
         units = ['AA_number'] + rng.sample(UNITS[1:7] if entry == 'binning.calculate_bin_edges' else UNITS[1:], 3)
+        if fine and rng.random() < 0.7:
+            units[1] = rng.choice(['m', 'km', 'cm'])       # large length units make fine spacings numerically tiny
         if entry == 'observation.sample_binned':
             # binned samples exist only exactly at the bin centres: keep the units whose round trip to Angstrom is exact
             import astropy.units as u
